@@ -20,9 +20,14 @@ def joinLines : List (List Byte) → List Byte
   | [] => []
   | l :: ls => l ++ CR :: LF :: joinLines ls
 
-/-- a line of the wire text: no CR, no LF, and the quoted-printable line rules hold for what the
-receiver sees -/
-def RawOk (l : List Byte) : Prop := CR ∉ l ∧ LF ∉ l ∧ QpLineOk (stripDot l)
+/-- a line that begins with a dot begins with two: the dot was added for transparency -/
+def DotOk (l : List Byte) : Prop := l.head? = some DOT → l.tail.head? = some DOT
+
+instance (l : List Byte) : Decidable (DotOk l) := by unfold DotOk; exact inferInstance
+
+/-- a line of the wire text: no CR, no LF, the quoted-printable line rules hold for what the
+receiver sees, and a leading dot is doubled -/
+def RawOk (l : List Byte) : Prop := CR ∉ l ∧ LF ∉ l ∧ QpLineOk (stripDot l) ∧ DotOk l
 
 theorem joinLines_append (a b : List (List Byte)) : joinLines (a ++ b) = joinLines a ++ joinLines b := by
   induction a with
@@ -174,10 +179,41 @@ theorem getLast?_stripDot (l : List Byte) (b : Byte) (h : (stripDot l).getLast? 
       | cons e t' => rw [List.getLast?_cons_cons]; exact h
   · exact h
 
-theorem rawOk_mk (L : List Byte) (h1 : CR ∉ L) (h2 : LF ∉ L) (h3 : (stripDot L).length ≤ 76) (h4 : NB L) : RawOk L := by
-  refine ⟨h1, h2, h3, ?_, ?_⟩
+theorem rawOk_mk (L : List Byte) (h1 : CR ∉ L) (h2 : LF ∉ L) (h3 : (stripDot L).length ≤ 76) (h4 : NB L)
+    (h5 : DotOk L) : RawOk L := by
+  refine ⟨h1, h2, ⟨h3, ?_, ?_⟩, h5⟩
   · intro h; exact h4.1 (getLast?_stripDot _ _ h)
   · intro h; exact h4.2 (getLast?_stripDot _ _ h)
+
+theorem dotOk_append (cur x : List Byte) (h : DotOk cur) (hx : cur = [] → DotOk x) : DotOk (cur ++ x) := by
+  match cur, h, hx with
+  | [], _, hx => simpa using hx rfl
+  | [a], h, _ =>
+    intro hh
+    simp only [List.cons_append, List.nil_append, List.head?_cons, Option.some.injEq] at hh
+    subst hh
+    have := h rfl
+    simp at this
+  | a :: b :: t, h, _ =>
+    intro hh
+    have := h (by simpa using hh)
+    simpa using this
+
+theorem dotOk_replace (cur0 y : List Byte) (ws : Byte) (h : DotOk (cur0 ++ [ws])) (hws : ws ≠ DOT) (hy : DotOk y) :
+    DotOk (cur0 ++ y) := by
+  match cur0, h with
+  | [], _ => simpa using hy
+  | [a], h =>
+    intro hh
+    simp only [List.cons_append, List.nil_append, List.head?_cons, Option.some.injEq] at hh
+    subst hh
+    have := h rfl
+    simp at this
+    exact absurd this hws
+  | a :: b :: t, h =>
+    intro hh
+    have := h (by simpa using hh)
+    simpa using this
 
 theorem stripDot_append_len (cur x : List Byte) (h : cur ≠ [] ∨ x.head? ≠ some DOT) :
     (stripDot (cur ++ x)).length = (stripDot cur).length + x.length := by
@@ -195,7 +231,7 @@ get a soft line break; a blank at its end is followed by a byte that is no line 
 def Inv (rest : List Byte) (llen : Nat) (F : List Byte) : Prop :=
   ∃ ls cur, F = joinLines ls ++ cur ∧ (∀ l ∈ ls, RawOk l) ∧ CR ∉ cur ∧ LF ∉ cur
     ∧ (stripDot cur).length = llen ∧ (llen = 0 → cur = []) ∧ llen ≤ 75
-    ∧ (¬ NB cur → llen ≤ 73 ∧ ∃ d r, rest = d :: r ∧ d ≠ CR ∧ d ≠ LF)
+    ∧ (¬ NB cur → llen ≤ 73 ∧ ∃ d r, rest = d :: r ∧ d ≠ CR ∧ d ≠ LF) ∧ DotOk cur
 
 /-- complete good lines and a good last line -/
 def Final (w : List Byte) : Prop :=
@@ -204,7 +240,7 @@ def Final (w : List Byte) : Prop :=
 theorem inv_newline (rest : List Byte) (ls : List (List Byte)) (L : List Byte) (hls : ∀ l ∈ ls, RawOk l)
     (hL : RawOk L) : Inv rest 0 (joinLines ls ++ L ++ [CR, LF]) := by
   refine ⟨ls ++ [L], [], by rw [joinLines_snoc]; simp, ?_, by simp, by simp, by simp [stripDot], fun _ => rfl,
-    by omega, fun h => absurd NB_nil h⟩
+    by omega, fun h => absurd NB_nil h, by decide⟩
   intro l hl
   rcases List.mem_append.mp hl with h | h
   · exact hls l h
@@ -271,43 +307,43 @@ theorem qpRun_lines {rest : List Byte} {llen : Nat} {F w : List Byte} (run : QpR
   have h72 : Gen.recodeQpSoft = 72 := rfl
   induction run with
   | done llen F =>
-    rintro ⟨ls, cur, hF, hls, hcr, hlf, hlen, hz, h75, hnb⟩
-    refine ⟨ls, cur, hF, hls, rawOk_mk cur hcr hlf (by omega) ?_⟩
+    rintro ⟨ls, cur, hF, hls, hcr, hlf, hlen, hz, h75, hnb, hdot⟩
+    refine ⟨ls, cur, hF, hls, rawOk_mk cur hcr hlf (by omega) ?_ hdot⟩
     apply Decidable.byContradiction; intro hn
     obtain ⟨_, d, r, hr, _⟩ := hnb hn
     cases hr
   | crlf rest llen F w _ ih =>
-    rintro ⟨ls, cur, hF, hls, hcr, hlf, hlen, hz, h75, hnb⟩
+    rintro ⟨ls, cur, hF, hls, hcr, hlf, hlen, hz, h75, hnb, hdot⟩
     apply ih
     subst hF
     have hL : RawOk cur := rawOk_mk cur hcr hlf (by omega) (by
-      apply Decidable.byContradiction; intro hn; obtain ⟨_, d, r, hr, hd, _⟩ := hnb hn; cases hr; exact hd rfl)
+      apply Decidable.byContradiction; intro hn; obtain ⟨_, d, r, hr, hd, _⟩ := hnb hn; cases hr; exact hd rfl) hdot
     exact inv_newline rest ls cur hls hL
   | cr rest llen F w hne _ ih =>
-    rintro ⟨ls, cur, hF, hls, hcr, hlf, hlen, hz, h75, hnb⟩
+    rintro ⟨ls, cur, hF, hls, hcr, hlf, hlen, hz, h75, hnb, hdot⟩
     apply ih
     subst hF
     have hL : RawOk cur := rawOk_mk cur hcr hlf (by omega) (by
-      apply Decidable.byContradiction; intro hn; obtain ⟨_, d, r, hr, hd, _⟩ := hnb hn; cases hr; exact hd rfl)
+      apply Decidable.byContradiction; intro hn; obtain ⟨_, d, r, hr, hd, _⟩ := hnb hn; cases hr; exact hd rfl) hdot
     exact inv_newline rest ls cur hls hL
   | lf rest llen F w _ ih =>
-    rintro ⟨ls, cur, hF, hls, hcr, hlf, hlen, hz, h75, hnb⟩
+    rintro ⟨ls, cur, hF, hls, hcr, hlf, hlen, hz, h75, hnb, hdot⟩
     apply ih
     subst hF
     have hL : RawOk cur := rawOk_mk cur hcr hlf (by omega) (by
-      apply Decidable.byContradiction; intro hn; obtain ⟨_, d, r, hr, _, hd⟩ := hnb hn; cases hr; exact hd rfl)
+      apply Decidable.byContradiction; intro hn; obtain ⟨_, d, r, hr, _, hd⟩ := hnb hn; cases hr; exact hd rfl) hdot
     exact inv_newline rest ls cur hls hL
   | soft c rest llen F w h1 h2 _ ih =>
-    rintro ⟨ls, cur, hF, hls, hcr, hlf, hlen, hz, h75, hnb⟩
+    rintro ⟨ls, cur, hF, hls, hcr, hlf, hlen, hz, h75, hnb, hdot⟩
     apply ih
     subst hF
     have hL : RawOk (cur ++ [EQ]) := rawOk_mk _ (mem_append_not hcr (by decide)) (mem_append_not hlf (by decide))
       (by rw [stripDot_append_len cur [EQ] (Or.inr (by decide))]; simp; omega)
-      (NB_append _ _ (by simp) (by decide))
+      (NB_append _ _ (by simp) (by decide)) (dotOk_append _ _ hdot (fun _ => by decide))
     have := inv_newline (c :: rest) ls _ hls hL
     simpa [List.append_assoc] using this
   | softTake c d rest llen F' ws w hb hp _ ih =>
-    rintro ⟨ls, cur, hF, hls, hcr, hlf, hlen, hz, h75, hnb⟩
+    rintro ⟨ls, cur, hF, hls, hcr, hlf, hlen, hz, h75, hnb, hdot⟩
     apply ih
     obtain ⟨cur0, hc0, hF'⟩ := split_last_blank ls cur F' ws hb hF.symm
     subst hc0 hF'
@@ -317,11 +353,11 @@ theorem qpRun_lines {rest : List Byte} {llen : Nat} {F w : List Byte} (run : QpR
       (mem_append_not hcr (by simp; exact ⟨fun e => l3 e.symm, by decide⟩))
       (mem_append_not hlf (by simp; exact ⟨fun e => l4 e.symm, by decide⟩))
       (by rw [stripDot_append_len (cur0 ++ [ws]) [c, EQ] (Or.inl (by simp))]; simp; omega)
-      (NB_append _ _ (by simp) (by unfold NB; simp; decide))
+      (NB_append _ _ (by simp) (by unfold NB; simp; decide)) (dotOk_append _ _ hdot (fun h => absurd h (by simp)))
     have := inv_newline (d :: rest) ls _ hls hL
     simpa [List.append_assoc] using this
   | softTakeLast c llen F' ws w hb hp run' ih =>
-    rintro ⟨ls, cur, hF, hls, hcr, hlf, hlen, hz, h75, hnb⟩
+    rintro ⟨ls, cur, hF, hls, hcr, hlf, hlen, hz, h75, hnb, hdot⟩
     obtain ⟨cur0, hc0, hF'⟩ := split_last_blank ls cur F' ws hb hF.symm
     subst hc0 hF'
     obtain ⟨h73, _⟩ := hnb (not_NB_snoc_blank cur0 ws hb)
@@ -336,9 +372,9 @@ theorem qpRun_lines {rest : List Byte} {llen : Nat} {F w : List Byte} (run : QpR
         (mem_append_not hcr (by simp; exact fun e => l3 e.symm))
         (mem_append_not hlf (by simp; exact fun e => l4 e.symm))
         (by rw [stripDot_append_len (cur0 ++ [ws]) [c] (Or.inl (by simp))]; simp; omega)
-        (NB_append _ _ (by simp) (NB_single c hnbc))⟩
+        (NB_append _ _ (by simp) (NB_single c hnbc)) (dotOk_append _ _ hdot (fun h => absurd h (by simp)))⟩
   | softFix c rest llen F' ws w hb h1 h2 _ ih =>
-    rintro ⟨ls, cur, hF, hls, hcr, hlf, hlen, hz, h75, hnb⟩
+    rintro ⟨ls, cur, hF, hls, hcr, hlf, hlen, hz, h75, hnb, hdot⟩
     apply ih
     obtain ⟨cur0, hc0, hF'⟩ := split_last_blank ls cur F' ws hb hF.symm
     subst hc0 hF'
@@ -358,71 +394,84 @@ theorem qpRun_lines {rest : List Byte} {llen : Nat} {F w : List Byte} (run : QpR
           | cons x xs => rw [hw] at w5; simpa using w5))]
         simp [w4] at hlen ⊢; omega)
       (NB_append _ _ (by simp) (NB_append _ _ (by simp) (by decide)))
+      (dotOk_replace cur0 _ ws hdot hwd (by
+        intro hh
+        cases hw : wsEnc ws with
+        | nil => rw [hw] at w4; simp at w4
+        | cons x xs => rw [hw] at w5 hh; simp at w5 hh; exact absurd hh w5))
     have := inv_newline (c :: rest) ls _ hls hL
     simpa [List.append_assoc] using this
   | dot rest F w _ ih =>
-    rintro ⟨ls, cur, hF, hls, hcr, hlf, hlen, hz, h75, hnb⟩
+    rintro ⟨ls, cur, hF, hls, hcr, hlf, hlen, hz, h75, hnb, hdot⟩
     apply ih
     have := hz rfl
     subst this
     exact ⟨ls, [DOT, DOT], by simp [hF], hls, by decide, by decide, by decide, fun h => by omega, by omega,
-      fun h => absurd (by decide : NB [DOT, DOT]) h⟩
+      fun h => absurd (by decide : NB [DOT, DOT]) h, by decide⟩
   | wsEnd c llen F w hl hb _ ih =>
-    rintro ⟨ls, cur, hF, hls, hcr, hlf, hlen, hz, h75, hnb⟩
+    rintro ⟨ls, cur, hF, hls, hcr, hlf, hlen, hz, h75, hnb, hdot⟩
     apply ih
     obtain ⟨w1, w2, w3, w4, w5⟩ := wsEnc_facts c
     have hne : wsEnc c ≠ [] := by intro h; rw [h] at w4; simp at w4
+    have hdo : DotOk (wsEnc c) := fun hh => absurd hh w5
     exact ⟨ls, cur ++ wsEnc c, by simp [hF, List.append_assoc], hls, mem_append_not hcr w1, mem_append_not hlf w2,
       by rw [stripDot_append_len cur (wsEnc c) (Or.inr w5), hlen, w4], fun h => by omega, by omega,
-      fun h => absurd (NB_append _ _ hne w3) h⟩
+      fun h => absurd (NB_append _ _ hne w3) h, dotOk_append _ _ hdot (fun _ => hdo)⟩
   | wsCrLf c rest llen F w hl hb _ ih =>
-    rintro ⟨ls, cur, hF, hls, hcr, hlf, hlen, hz, h75, hnb⟩
+    rintro ⟨ls, cur, hF, hls, hcr, hlf, hlen, hz, h75, hnb, hdot⟩
     apply ih
     subst hF
     obtain ⟨w1, w2, w3, w4, w5⟩ := wsEnc_facts c
     have hne : wsEnc c ≠ [] := by intro h; rw [h] at w4; simp at w4
+    have hdo : DotOk (wsEnc c) := fun hh => absurd hh w5
     have hL : RawOk (cur ++ wsEnc c) := rawOk_mk _ (mem_append_not hcr w1) (mem_append_not hlf w2)
       (by rw [stripDot_append_len cur (wsEnc c) (Or.inr w5), hlen, w4]; omega) (NB_append _ _ hne w3)
+      (dotOk_append _ _ hdot (fun _ => hdo))
     have := inv_newline rest ls _ hls hL
     simpa [List.append_assoc] using this
   | wsCr c rest llen F w hl hb hne' _ ih =>
-    rintro ⟨ls, cur, hF, hls, hcr, hlf, hlen, hz, h75, hnb⟩
+    rintro ⟨ls, cur, hF, hls, hcr, hlf, hlen, hz, h75, hnb, hdot⟩
     apply ih
     subst hF
     obtain ⟨w1, w2, w3, w4, w5⟩ := wsEnc_facts c
     have hne : wsEnc c ≠ [] := by intro h; rw [h] at w4; simp at w4
+    have hdo : DotOk (wsEnc c) := fun hh => absurd hh w5
     have hL : RawOk (cur ++ wsEnc c) := rawOk_mk _ (mem_append_not hcr w1) (mem_append_not hlf w2)
       (by rw [stripDot_append_len cur (wsEnc c) (Or.inr w5), hlen, w4]; omega) (NB_append _ _ hne w3)
+      (dotOk_append _ _ hdot (fun _ => hdo))
     have := inv_newline rest ls _ hls hL
     simpa [List.append_assoc] using this
   | wsLf c rest llen F w hl hb _ ih =>
-    rintro ⟨ls, cur, hF, hls, hcr, hlf, hlen, hz, h75, hnb⟩
+    rintro ⟨ls, cur, hF, hls, hcr, hlf, hlen, hz, h75, hnb, hdot⟩
     apply ih
     subst hF
     obtain ⟨w1, w2, w3, w4, w5⟩ := wsEnc_facts c
     have hne : wsEnc c ≠ [] := by intro h; rw [h] at w4; simp at w4
+    have hdo : DotOk (wsEnc c) := fun hh => absurd hh w5
     have hL : RawOk (cur ++ wsEnc c) := rawOk_mk _ (mem_append_not hcr w1) (mem_append_not hlf w2)
       (by rw [stripDot_append_len cur (wsEnc c) (Or.inr w5), hlen, w4]; omega) (NB_append _ _ hne w3)
+      (dotOk_append _ _ hdot (fun _ => hdo))
     have := inv_newline rest ls _ hls hL
     simpa [List.append_assoc] using this
   | ws c d rest llen F w hl hb h1 h2 _ ih =>
-    rintro ⟨ls, cur, hF, hls, hcr, hlf, hlen, hz, h75, hnb⟩
+    rintro ⟨ls, cur, hF, hls, hcr, hlf, hlen, hz, h75, hnb, hdot⟩
     apply ih
     obtain ⟨_, b2, _, b4, b5⟩ := blank_facts c hb
     exact ⟨ls, cur ++ [c], by simp [hF, List.append_assoc], hls,
       mem_append_not hcr (by simp; exact fun e => b4 e.symm), mem_append_not hlf (by simp; exact fun e => b5 e.symm),
       by rw [stripDot_append_len cur [c] (Or.inr (by simpa using b2)), hlen]; simp, fun h => by omega, by omega,
-      fun _ => ⟨by omega, d, rest, rfl, h1, h2⟩⟩
+      fun _ => ⟨by omega, d, rest, rfl, h1, h2⟩, dotOk_append _ _ hdot (fun _ => by intro hh; simp at hh; exact absurd hh b2)⟩
   | enc c rest llen F w hl h1 h2 h3 h4 _ ih =>
-    rintro ⟨ls, cur, hF, hls, hcr, hlf, hlen, hz, h75, hnb⟩
+    rintro ⟨ls, cur, hF, hls, hcr, hlf, hlen, hz, h75, hnb, hdot⟩
     apply ih
     obtain ⟨w1, w2, w3, w4, w5⟩ := qpEnc_facts c
     have hne : qpEnc c ≠ [] := by intro h; rw [h] at w4; simp at w4
+    have hdo : DotOk (qpEnc c) := fun hh => absurd hh w5
     exact ⟨ls, cur ++ qpEnc c, by simp [hF, List.append_assoc], hls, mem_append_not hcr w1, mem_append_not hlf w2,
       by rw [stripDot_append_len cur (qpEnc c) (Or.inr w5), hlen, w4], fun h => by omega, by omega,
-      fun h => absurd (NB_append _ _ hne w3) h⟩
+      fun h => absurd (NB_append _ _ hne w3) h, dotOk_append _ _ hdot (fun _ => hdo)⟩
   | plain c rest llen F w hl h1 h2 h3 h4 h5 _ ih =>
-    rintro ⟨ls, cur, hF, hls, hcr, hlf, hlen, hz, h75, hnb⟩
+    rintro ⟨ls, cur, hF, hls, hcr, hlf, hlen, hz, h75, hnb, hdot⟩
     apply ih
     have hor : cur ≠ [] ∨ [c].head? ≠ some DOT := by
       by_cases hc : cur = []
@@ -435,7 +484,12 @@ theorem qpRun_lines {rest : List Byte} {llen : Nat} {F w : List Byte} (run : QpR
     exact ⟨ls, cur ++ [c], by simp [hF, List.append_assoc], hls,
       mem_append_not hcr (by simp; exact fun e => h1 e.symm), mem_append_not hlf (by simp; exact fun e => h2 e.symm),
       by rw [stripDot_append_len cur [c] hor, hlen]; simp, fun h => by omega, by omega,
-      fun h => absurd (NB_append _ _ (by simp) (NB_single c h3)) h⟩
+      fun h => absurd (NB_append _ _ (by simp) (NB_single c h3)) h,
+      dotOk_append _ _ hdot (fun hc => by
+        intro hh
+        rcases hor with h' | h'
+        · exact absurd hc h'
+        · exact absurd hh h')⟩
 
 
 theorem final_lines (w : List Byte) (h : Final w) : ∀ l ∈ splitCrlf [] (unDot w), QpLineOk l := by
@@ -444,8 +498,8 @@ theorem final_lines (w : List Byte) (h : Final w) : ∀ l ∈ splitCrlf [] (unDo
   intro l hl
   rcases List.mem_append.mp hl with h | h
   · obtain ⟨l', hl', rfl⟩ := List.mem_map.mp h
-    exact (hls l' hl').2.2
-  · simp at h; subst h; exact hc.2.2
+    exact (hls l' hl').2.2.1
+  · simp at h; subst h; exact hc.2.2.1
 
 /-- **QP line rules**: every line of what recode_qp() sends — as the receiver sees it, the dot added
 for transparency removed — has at most 76 characters and does not end in a blank, for every body
@@ -466,6 +520,154 @@ theorem recodeQp_lines (b : List Byte) (st : St) (h : recodeQp b {} = .ok st) :
     have e3 : QpRun b 0 [] st.out := by simpa using e2
     apply final_lines
     apply qpRun_lines e3
-    exact ⟨[], [], rfl, by simp, by simp, by simp, rfl, fun _ => rfl, by omega, fun h => absurd NB_nil h⟩
+    exact ⟨[], [], rfl, by simp, by simp, by simp, rfl, fun _ => rfl, by omega, fun h => absurd NB_nil h, by decide⟩
+
+/-! ### what recode_qp() sends is legal SMTP data, line by line -/
+
+def All7 (l : List Byte) : Prop := ∀ b ∈ l, b.toNat < 128
+
+instance (l : List Byte) : Decidable (All7 l) := by unfold All7; exact inferInstance
+
+theorem all7_append {a b : List Byte} (ha : All7 a) (hb : All7 b) : All7 (a ++ b) := by
+  intro x hx; rcases List.mem_append.mp hx with h | h
+  · exact ha x h
+  · exact hb x h
+
+theorem all7_left {a b : List Byte} (h : All7 (a ++ b)) : All7 a := fun x hx => h x (by simp [hx])
+
+theorem hexOf_7 : ∀ n : Fin 16, (hexOf n.val).toNat < 128 := by decide
+
+theorem qpEnc_7 (c : Byte) : All7 (qpEnc c) := by
+  have h1 := hexOf_7 ⟨c.toNat / 16, by have := c.toNat_lt; omega⟩
+  have h2 := hexOf_7 ⟨c.toNat % 16, by omega⟩
+  intro b hb
+  simp only [qpEnc, List.mem_cons, List.not_mem_nil, or_false] at hb
+  rcases hb with rfl | rfl | rfl
+  · decide
+  · exact h1
+  · exact h2
+
+theorem wsEnc_7 (c : Byte) : All7 (wsEnc c) := by unfold wsEnc; split <;> decide
+
+theorem blank_7 (c : Byte) (h : isBlank c) : c.toNat < 128 := by rcases h with rfl | rfl <;> decide
+
+theorem plain7_table : ∀ n : Fin 256, ¬ needsEnc (UInt8.ofNat n.val) → (UInt8.ofNat n.val).toNat < 128 := by
+  unfold needsEnc; decide +kernel
+
+theorem plain_7 (c : Byte) (h : ¬ needsEnc c) : c.toNat < 128 := by
+  have := plain7_table ⟨c.toNat, c.toNat_lt⟩
+  simp only [UInt8.ofNat_toNat] at this
+  exact this h
+
+theorem qpPlain7_table : ∀ n : Fin 256, qpPlain (UInt8.ofNat n.val) = true → (UInt8.ofNat n.val).toNat < 128 := by
+  decide +kernel
+
+theorem qpPlain_7 (c : Byte) (h : qpPlain c = true) : c.toNat < 128 := by
+  have := qpPlain7_table ⟨c.toNat, c.toNat_lt⟩
+  simp only [UInt8.ofNat_toNat] at this
+  exact this h
+
+/-- everything recode_qp() sends is 7 bit -/
+theorem qpRun_7bit {rest : List Byte} {llen : Nat} {F w : List Byte} (run : QpRun rest llen F w) :
+    All7 F → All7 w := by
+  induction run with
+  | done llen F => exact id
+  | crlf rest llen F w _ ih => exact fun h => ih (all7_append h (by decide))
+  | cr rest llen F w _ _ ih => exact fun h => ih (all7_append h (by decide))
+  | lf rest llen F w _ ih => exact fun h => ih (all7_append h (by decide))
+  | soft c rest llen F w _ _ _ ih => exact fun h => ih (all7_append h (by decide))
+  | softTake c d rest llen F' ws w hb hp _ ih =>
+    intro h
+    apply ih
+    have h1 := all7_left h
+    have hws := h ws (by simp)
+    have hc := qpPlain_7 c hp
+    refine all7_append (all7_append h1 ?_) (by decide)
+    intro b hb'; simp at hb'; rcases hb' with rfl | rfl <;> assumption
+  | softTakeLast c llen F' ws w hb hp _ ih =>
+    intro h
+    apply ih
+    have h1 := all7_left h
+    have hws := h ws (by simp)
+    have hc := qpPlain_7 c hp
+    refine all7_append h1 ?_
+    intro b hb'; simp at hb'; rcases hb' with rfl | rfl <;> assumption
+  | softFix c rest llen F' ws w hb _ _ _ ih =>
+    intro h
+    apply ih
+    exact all7_append (all7_append (all7_left h) (wsEnc_7 ws)) (by decide)
+  | dot rest F w _ ih => exact fun h => ih (all7_append h (by decide))
+  | wsEnd c llen F w _ hb _ ih => exact fun h => ih (all7_append h (wsEnc_7 c))
+  | wsCrLf c rest llen F w _ hb _ ih => exact fun h => ih (all7_append (all7_append h (wsEnc_7 c)) (by decide))
+  | wsCr c rest llen F w _ hb _ _ ih => exact fun h => ih (all7_append (all7_append h (wsEnc_7 c)) (by decide))
+  | wsLf c rest llen F w _ hb _ ih => exact fun h => ih (all7_append (all7_append h (wsEnc_7 c)) (by decide))
+  | ws c d rest llen F w _ hb _ _ _ ih =>
+    exact fun h => ih (all7_append h (by intro b hb'; simp at hb'; subst hb'; exact blank_7 _ hb))
+  | enc c rest llen F w _ _ _ _ _ _ ih => exact fun h => ih (all7_append h (qpEnc_7 c))
+  | plain c rest llen F w _ _ _ _ h4 _ _ ih =>
+    exact fun h => ih (all7_append h (by intro b hb'; simp at hb'; subst hb'; exact plain_7 _ h4))
+
+/-- the wire lines of complete lines followed by an unterminated rest -/
+theorem rawlines_of_join : ∀ (ls : List (List Byte)) (cur : List Byte),
+    (∀ l ∈ ls, CR ∉ l) → CR ∉ cur → splitCrlf [] (joinLines ls ++ cur) = ls ++ [cur]
+  | [], cur, _, hc => by simp [joinLines, splitCrlf_noCR _ _ hc]
+  | l :: ls, cur, h, hc => by
+    have ih := rawlines_of_join ls cur (fun l' hl' => h l' (by simp [hl'])) hc
+    simp only [joinLines, List.append_assoc, List.cons_append]
+    rw [splitCrlf_line _ _ _ (h l (by simp))]
+    simp [ih]
+
+theorem mem_join_of_mem_line (ls : List (List Byte)) (cur l : List Byte) (hl : l ∈ ls ++ [cur]) (b : Byte) (hb : b ∈ l) :
+    b ∈ joinLines ls ++ cur := by
+  induction ls with
+  | nil => simp at hl; subst hl; simpa [joinLines] using hb
+  | cons x xs ih =>
+    simp only [List.cons_append, List.mem_cons] at hl
+    simp only [joinLines, List.append_assoc, List.cons_append, List.mem_append, List.mem_cons]
+    rcases hl with rfl | hl
+    · left; exact hb
+    · right; right; right
+      have := ih hl
+      simpa [List.mem_append] using this
+
+theorem stripDot_len_ge (l : List Byte) : l.length ≤ (stripDot l).length + 1 := by
+  unfold stripDot; split
+  · cases l <;> simp
+  · omega
+
+/-- **legal body**: every wire line of what recode_qp() sends is a legal line of SMTP data whether
+or not 8BITMIME was announced: no CR or LF inside, not a single dot, at most 77 octets, 7 bit -/
+theorem recodeQp_legal (b : List Byte) (st : St) (h : recodeQp b {} = .ok st) (ext8 : Bool) :
+    ∀ l ∈ splitCrlf [] st.out, LegalLine ext8 l := by
+  unfold recodeQp at h
+  by_cases hb : b.length = 0
+  · simp only [hb, if_true] at h
+    cases h
+    intro l hl
+    simp [splitCrlf] at hl
+    subst hl
+    refine ⟨by simp, by simp, by simp, by simp [wireLen], fun _ b hb => by simp at hb⟩
+  · simp only [hb, if_false] at h
+    obtain ⟨st', e1, e2⟩ := qpGo_run b 0 0 0 [] {} (by omega) (by simp) (by simp; omega)
+    rw [h] at e1; cases e1
+    simp only [List.drop_zero, Nat.add_zero, List.take_zero, List.append_nil] at e2
+    have e3 : QpRun b 0 [] st.out := by simpa using e2
+    have h7 := qpRun_7bit e3 (by intro x hx; simp at hx)
+    obtain ⟨ls, cur, hw, hls, hc⟩ := qpRun_lines e3
+      ⟨[], [], rfl, by simp, by simp, by simp, rfl, fun _ => rfl, by omega, fun h => absurd NB_nil h, by decide⟩
+    rw [hw] at h7 ⊢
+    rw [rawlines_of_join ls cur (fun l hl => (hls l hl).1) hc.1]
+    intro l hl
+    have hr : RawOk l := by
+      rcases List.mem_append.mp hl with h' | h'
+      · exact hls l h'
+      · simp at h'; subst h'; exact hc
+    obtain ⟨r1, r2, ⟨r3, _, _⟩, r4⟩ := hr
+    refine ⟨r1, r2, ?_, ?_, fun _ x hx => h7 x (mem_join_of_mem_line ls cur l hl x hx)⟩
+    · intro hd; subst hd
+      have := r4 rfl
+      simp at this
+    · have := stripDot_len_ge l
+      unfold wireLen; split <;> omega
 
 end QsmtpModel.QrData
